@@ -494,6 +494,9 @@ func (c *End) deliver(ready int) {
 		n = 1 + run.Choose("seg", m)
 	}
 	c.mu.Lock()
+	if traceSched {
+		fmt.Fprintf(os.Stderr, "DELIVER %s %d bytes hash %x\n", c.name, n, hashString(string(c.inflight[:n])))
+	}
 	c.rbuf = append(c.rbuf, c.inflight[:n]...)
 	c.inflight = c.inflight[n:]
 	c.inBase += int64(n)
